@@ -257,6 +257,8 @@ class Interp:
         if isinstance(n.op, ast.USub):
             if isinstance(v, STensor):
                 return t_bin('*', v, -1)
+            if isinstance(v, IArr):
+                return arr_arith('sub', 0, v)
             return simp(-v) if isz(v) else -v
         if isinstance(n.op, ast.Not):
             if isz(v):
